@@ -158,9 +158,20 @@ class P(Prop):
         (M, "TV.C15.filter_const", "T3: when all non-NaN samples equal c every filtered value is c"),
         (M, "TV.C15.filter_const_signal", "T3': a constant NaN-free signal is returned unchanged, both boundary settings"),
         (M, "TV.C15.boundary_copy", "T4: without boundary filtering the first and last D outputs are the inputs (NaN included)"),
+        (M, "TV.C15.inDomain_of_positive_weights", "an odd list of positive weights with a non-NaN sample within D of every index (isolated NaN) is in the domain: no zero norm"),
+        (M, "TV.C15.execute_is_mean", "Filter.execute as a whole (weight list normalised in place / Kernel object / Dirac): output = signal of renormalised means of the prepared window, with the caller's un-normalised weights for a list"),
+        (M, "TV.C15.window_shape", "T5: toSlidingWindow has 2*floor(support)+1 values (odd), w[size-1-i] = w[i] for an even kernel function, and sums to 1"),
+        (M, "TV.C15.window_nonneg", "T5': a kernel function non-negative at the sample points and positive at 0 gives a positive raw sum and a non-negative window with positive centre weight"),
+        (M, "TV.C15.builtin_kernels", "the Uniform/Triangular/Epanechnikov kernel functions of kernel.py are even, non-negative, positive at 0"),
+        (M, "TV.C15.filterSeq_is_mean", "filter_seq (and Track.smooth): every listed coordinate/feature becomes the mean signal of its former values, same window for all dimensions despite the in-place normalisation; other signals except 'temp' untouched"),
+        (M, "TV.C15.filterSeq_int", "filter_seq with an int n uses [1]*n; n = 1 or a one-element list returns the track unchanged"),
+        (M, "TV.C15.zero_norm_fails", "outside the domain (a zero norm) the method fails with a division by zero, never a wrong value"),
     ]
     partial = []
-    open_statements = []
+    open_statements = ["theorems are over a linearly ordered field: IEEE rounding of the float computation is outside them (sampled by the transfer check at 1e-9)",
+                       "the kernel functions using math.exp / math.pow (Gaussian, Exponential, Cubic, Spheric) are a function parameter: window_shape / window_nonneg "
+                       "apply to them under the stated hypotheses (even, non-negative at the sample points, positive at 0), which are not proved for libm",
+                       "zero-norm behaviour for weight lists (numpy yields nan/inf instead of raising) is not modelled; the model reports err:zerodiv in every zero-norm case"]
     modelled = ("Filter.execute (kernel preparation for weight lists / Kernel objects / Dirac, odd-window test, window index i-j+D, "
                 "skipping out-of-track and NaN samples, division by the collected norm, boundary copy), Kernel.evaluate and "
                 "Kernel.toSlidingWindow, the kernel functions of UniformKernel/TriangularKernel/EpanechnikovKernel (the other "
